@@ -214,11 +214,23 @@ func (o *Opts) Plugins() any {
 		return core.Pick(r, []string{"docker#v5.0.0", "docker-compose#v4", "org/custom#main", "./local", "github.com/o/r-buildkite-plugin#1", "ssh://git@h/o/r.git", "ecr", "a/b", "x/y#a/../..", "docker#feature/./v1", "org/name#rel//1"})
 	}
 	cfg := func() any {
-		switch r.Intn(5) {
+		switch r.Intn(7) {
 		case 0:
 			return nil
 		case 1:
 			return ordered.NewMap[string, any](0)
+		case 2:
+			// a config need not be a mapping: a bare string, a number, a list
+			switch r.Intn(3) {
+			case 0:
+				o.hist("plugins.config-scalar-string")
+				return o.str()
+			case 1:
+				o.hist("plugins.config-list")
+				return []any{o.str(), o.Map(1, 2)}
+			}
+			o.hist("plugins.config-number")
+			return r.Intn(100)
 		}
 		return o.Map(2, 4)
 	}
